@@ -156,7 +156,7 @@ def run(tier, argv):
                                                              "Selection_small2.cfg"]
     tables = {}
     for cfg in cfgs:
-        res = tlc.run("Selection", cfg, workers=16, coverage=(cfg == "Selection_small.cfg"), timeout=3000)
+        res = tlc.run("Selection", cfg, workers=16, coverage=(cfg == "Selection_small.cfg"), timeout=3000 if tier == "quick" else 7000)
         chk.add_tlc(res, cfg)
         if cfg == "Selection_small.cfg" and res.coverage.get("Grow", 0) == 0:
             raise MachineryError("vacuity: Grow action never taken")
